@@ -151,7 +151,7 @@ def run(rep, ctx):
     repo = ctx["repo"]
     drv = os.path.join(units.VERIF, "tool", "stubs", "safeint_inst.cc")
     d = export("safeint_inst.cc(driver over include/mp/safeint.h)", kind="fmt", path=drv, repo=repo,
-               fn=[r"mp::operator[-+*]", r"mp::SafeAbs", r"mp::SafeInt::SafeInt", r"mp::val",
+               fn=[r"mp::operator[-+*]", r"mp::SafeAbs", r"mp::SafeInt::.*", r"mp::val",
                    r"fmt::internal::is_negative", r"fmt::internal::SignChecker::is_negative"])
     F = Facts([d])
     rep.note_units(["include/mp/safeint.h via tool/stubs/safeint_inst.cc"])
